@@ -28,6 +28,16 @@
 (*        to the other network (right amount); validating APIs refuse it   *)
 (*  output-constructor-fraction-truncated   Output(value=<non-integer>) is *)
 (*        accepted and serialized as its integer part                      *)
+(*  input-value-not-checked   Input(value=<number>) keeps the amount as it  *)
+(*        was given: fractional amounts and non-integer carrier types stay *)
+(*  amount-fraction-below-float-resolution-truncated   Output / add_output *)
+(*        test float(amount).is_integer(): a Decimal / Fraction amount     *)
+(*        whose fraction is lost in the nearest double is accepted and     *)
+(*        truncated (123456789012.99999999 -> 123456789012)                *)
+(*  add-output-value-object-read-as-coins   add_output(Value) stores the   *)
+(*        whole number of COINS of the Value as smallest units             *)
+(*  value-arithmetic-float-off-by-one   Value + - * on whole amounts: the  *)
+(*        result is one unit off, only for results >= 10^15                *)
 (*  parse-unit-read-as-currency-code   a unit that case-folds to a whole   *)
 (*        currency code (TBTC, TDOGE) is read as that currency with no     *)
 (*        denominator (or refused when a different network was supplied)   *)
@@ -138,6 +148,42 @@ JudgePlace(r) ==
                 IF r.kind = "frac" /\ r.api = "Output" /\ r.got.ser = LE8(r.d) THEN "output-constructor-fraction-truncated" ELSE "",
                 <<>>)
 
+\* r: an amount of carrier type r.ty with the exact value r.num / r.den (r.neg: negative) handed to entry point r.api.
+\* r.got: accepted (nothing refused up to and including raw()), the stored amount (isint: of an integer type,
+\* num/den: its exact value, den = 0 if it has none), ser: the 8 bytes raw() wrote (<<>> for Input), fee: the fee of a
+\* transaction built around it (whole: of an integer type, num: digits, neg).  r.other: the fixed amount on the other
+\* side of that transaction (input value for Output/add_output, output value for Input).
+InApi(r) == r.api \in {"Input", "add_input"}
+JudgeTyped(r) ==
+  LET whole == RatWhole(r.num, r.den)
+      q     == RatInt(r.num, r.den)
+      nonneg == ~IsNeg(r.neg, r.num)
+      g     == r.got
+      \* deviation: Input keeps the amount exactly as it was given (no check, no conversion)
+      asGiven == InApi(r) /\ g.den = r.den /\ Norm(g.num) = Norm(r.num) /\ g.neg = IsNeg(r.neg, r.num)
+      \* deviation: the whole-number test is made on the nearest double (oracle fact r.floatwhole: that double is an
+      \* integer although the exact value is not), then the exact value is truncated
+      floatTrunc == ~InApi(r) /\ r.floatwhole /\ nonneg /\ g.isint /\ g.den = 1 /\ Norm(g.num) = q /\ g.ser = LE8(q)
+      fee   == IF InApi(r) THEN SubLE(Rev(q), Rev(r.other), 10) ELSE SubLE(Rev(r.other), Rev(q), 10)
+  IN
+  IF ~g.accepted THEN
+       IF whole /\ nonneg /\ MustAccept(r.api, r.ty) THEN Bad("typed-whole-amount-refused", "", q) ELSE Ok
+  ELSE IF ~whole THEN
+       Bad("typed-fractional-amount-accepted",
+           IF asGiven THEN "input-value-not-checked" ELSE IF floatTrunc THEN "amount-fraction-below-float-resolution-truncated" ELSE "",
+           <<>>)
+  ELSE IF ~nonneg THEN
+       Bad("typed-negative-amount-accepted", IF asGiven THEN "input-value-not-checked" ELSE "", <<>>)
+  ELSE IF ~(g.den = 1 /\ ~g.neg /\ Norm(g.num) = q) THEN
+       Bad("typed-stored-amount-differs",
+           IF r.api = "add_output" /\ r.ty = "Value" /\ g.isint /\ g.den = 1 /\ Norm(g.num) \o Rep(0, 8) = q /\ g.ser = LE8(g.num)
+           THEN "add-output-value-object-read-as-coins" ELSE "", q)
+  ELSE IF ~g.isint THEN
+       Bad("typed-stored-amount-not-integer-type", IF asGiven THEN "input-value-not-checked" ELSE "", q)
+  ELSE IF ~InApi(r) /\ g.ser # LE8(q) THEN Bad("typed-serialized-differs-from-stored", "", LE8(q))
+  ELSE IF ~(g.fee.whole /\ ~g.fee.neg /\ Norm(g.fee.num) = Norm(Tup(Rev(fee)))) THEN Bad("typed-fee-not-integer", "", Tup(Rev(fee)))
+  ELSE Ok
+
 \* a wallet-created transaction paying r.text: the paid output is the accepted integer; every output and the fee
 \* are non-negative integers
 JudgeWallet(r) ==
@@ -168,6 +214,17 @@ Judge(r) ==
                   IF r.got.ok /\ ~r.got.neg /\ r.gnet = r.net /\ Differ1(r.got.d, r.n) /\ Cmp(r.n, Threshold15) >= 0
                      /\ r.den \in FloatFromSatDens THEN "from-satoshi-float-off-by-one" ELSE "", r.n)
     [] r.k = "place"  -> JudgePlace(r)
+    [] r.k = "typed"  -> JudgeTyped(r)
+    [] r.k = "arith" ->  \* Value arithmetic on whole amounts: from_satoshi(a) (+|-) from_satoshi(b), from_satoshi(a) * m
+         LET e == IF r.op = "add" THEN AddLE(Rev(r.a), Rev(r.b), 10)
+                  ELSE IF r.op = "sub" THEN SubLE(Rev(r.a), Rev(r.b), 10)
+                  ELSE MulSmall(Rev(r.a), r.m, 0, 10)
+             exp == Norm(Tup(Rev(e)))
+         IN IF Cmp(exp, Supply) > 0 THEN Skip("above-total-supply")
+            ELSE IF r.got.ok /\ ~IsNeg(r.got.neg, r.got.d) /\ Norm(r.got.d) = exp THEN Ok
+            ELSE Bad("value-arithmetic",
+                     IF r.got.ok /\ ~r.got.neg /\ Differ1(r.got.d, exp) /\ Cmp(exp, Threshold15) >= 0
+                     THEN "value-arithmetic-float-off-by-one" ELSE "", exp)
     [] r.k = "wallet" -> JudgeWallet(r)
     [] r.k = "gen" ->    \* (G) the canonical texts of r.n in denominator r.den with r.dec decimals
          [v |-> "ok", dev |-> "", exp |-> SetToSeq(FormatTexts(r.n, DenByName(r.den), r.net, r.dec))]
